@@ -128,25 +128,9 @@ def case_strategy(tier):
         else:
             alias = False
         case = {"writer": w, "set": s, "opts": opts, "lang": pick, "alias_langs": alias}
-        if w == "sami" and len(s["langs"]) == 2 and s["langs"][0]["cues"] and draw(st.integers(0, 3)) == 0:
-            # overlapping captions in the first language (SAMI has no spelling for them: that
-            # language is not judged); the second, sorted language must still come out in order
-            l0 = s["langs"][0]
-            k = draw(st.integers(0, len(l0["cues"]) - 1))
-            l0["cues"][k] = dict(l0["cues"][k], end=min(gen.DAY - 1, l0["cues"][k]["end"] + draw(
-                st.sampled_from([gen.SEC, 5 * gen.SEC, gen.MIN, gen.HOUR]))))
-            if len(l0["cues"]) >= 2 and draw(st.booleans()):
-                k2 = draw(st.integers(0, len(l0["cues"]) - 2))
-                l0["cues"][k2 + 1] = dict(l0["cues"][k2 + 1], start=l0["cues"][k2]["start"],
-                                          end=max(l0["cues"][k2 + 1]["end"], l0["cues"][k2]["start"]))
-                # (and a cue of the second language starting in that very millisecond)
-                l1 = s["langs"][1]
-                if l1["cues"] and draw(st.booleans()):
-                    d0 = l1["cues"][0]["end"] - l1["cues"][0]["start"]
-                    t0 = l0["cues"][k2]["start"]
-                    if all(c["start"] > t0 + d0 for c in l1["cues"][1:]) or len(l1["cues"]) == 1:
-                        l1["cues"][0] = dict(l1["cues"][0], start=t0, end=t0 + d0)
-            case["unjudged_langs"] = [l0["code"]]
+        # (SAMI sets keep sorted, non-overlapping captions in every language: with overlapping
+        # captions the SYNC blocks of the document cannot be in time order, and what the other
+        # language's paragraphs "in order" means is no longer defined - see DESIGN section 8)
         if pick and w in ("dfxp", "dfxp-single") and draw(st.integers(0, 3)) == 0:
             # the option value spells the language code in another case
             case["lang_spelling"] = draw(st.sampled_from(["lower", "upper"]))
